@@ -98,7 +98,7 @@ PROPS = {
     "C12": {"suites": [("sched", 1.0)], "theorems": PAR + L1_AGG[:3],
             "modules": DEFAULT_MODULES + ["RProofs.Agg", "RProofs.Par", "RProofs.Facts.Skeleton"], "owns": {"sched", "concdec", "concagg"},
             "race_suites": [("sched", 1.0)]},
-    "C13": {"suites": [("frozen", 1.0), ("frozenmis", 0.5)], "theorems": ["RModel.BSet.canon_ext", "RModel.Facts.frozenCookie_spec"],
+    "C13": {"suites": [("frozen", 1.0), ("frozenmis", 0.5)], "corpus": ["corpus/C10/frozen-bitmap4096.txt"], "theorems": ["RModel.BSet.canon_ext", "RModel.Facts.frozenCookie_spec"],
             "modules": DEFAULT_MODULES + [FACTS],
             "owns": {"frz", "frzsmall", "frzwfail", "fview", "fdec", "fspec", "fchk", "fgc", "wf", "dig", "eq", "card", "toarr"}},
     "C14": {"suites": [("hist", 1.0), ("alg", 0.7), ("xform", 0.5), ("thresh", 0.5), ("sizeb", 1.0), ("agg", 0.5)],
